@@ -1,4 +1,478 @@
-// placeholder for the C20 zeroize-observation driver (filled in later)
-pub fn run(_a: &[&str]) -> String {
-    "outcome=badop".into()
+// C20 (zeroize-on-release) observation driver.
+//
+// A custom global allocator wraps std::alloc::System.  It never allocates: all of its
+// state lives in one fixed-size static protected by a spin lock.
+//
+//  * watch mode  : a table of "watched" heap blocks (address, size).  When dealloc() (or a
+//                  moving realloc()) is entered for a watched block the block's current bytes
+//                  (at most REC_BYTES) are copied into a record BEFORE the block is handed
+//                  back to the system allocator.
+//  *  scan mode  : every block of >= 32 bytes that is released (dealloc, or realloc that
+//                  moved the block) is searched for a 32-byte pattern; blocks that still
+//                  contain it are counted.
+use std::alloc::{GlobalAlloc, Layout, System};
+use std::cell::UnsafeCell;
+use std::io::Cursor;
+use std::sync::atomic::{AtomicBool, Ordering};
+
+use kestrel_crypto as kc;
+use kestrel_crypto::{AsymFileFormat, PayloadKey, PrivateKey, PublicKey};
+
+const MAX_WATCH: usize = 128;
+const MAX_REC: usize = 128;
+const REC_BYTES: usize = 64;
+
+#[derive(Clone, Copy)]
+struct Rec {
+    len: usize,
+    bytes: [u8; REC_BYTES],
+}
+
+struct State {
+    // watch mode
+    watch: [(usize, usize); MAX_WATCH], // (address, size); address 0 = free slot
+    recs: [Rec; MAX_REC],
+    nrec: usize,
+    overflow: usize, // records / registrations that did not fit
+    // scan mode
+    scan_on: bool,
+    pattern: [u8; 32],
+    leaks: usize,   // released blocks that contained the pattern
+    blocks: usize,  // released blocks that were scanned (size >= 32)
+    frees: usize,   // all releases seen while scan mode was on
+}
+
+struct Shared {
+    lock: AtomicBool,
+    st: UnsafeCell<State>,
+}
+unsafe impl Sync for Shared {}
+
+static SH: Shared = Shared {
+    lock: AtomicBool::new(false),
+    st: UnsafeCell::new(State {
+        watch: [(0, 0); MAX_WATCH],
+        recs: [Rec { len: 0, bytes: [0; REC_BYTES] }; MAX_REC],
+        nrec: 0,
+        overflow: 0,
+        scan_on: false,
+        pattern: [0; 32],
+        leaks: 0,
+        blocks: 0,
+        frees: 0,
+    }),
+};
+
+// Runs f on the allocator state under the spin lock.  f must not allocate.
+fn with_state<R>(f: impl FnOnce(&mut State) -> R) -> R {
+    while SH.lock.compare_exchange_weak(false, true, Ordering::Acquire, Ordering::Relaxed).is_err() {
+        std::hint::spin_loop();
+    }
+    let r = f(unsafe { &mut *SH.st.get() });
+    SH.lock.store(false, Ordering::Release);
+    r
+}
+
+fn contains_pattern(hay: &[u8], pat: &[u8; 32]) -> bool {
+    if hay.len() < 32 {
+        return false;
+    }
+    let mut i = 0;
+    while i + 32 <= hay.len() {
+        if hay[i] == pat[0] && hay[i..i + 32] == pat[..] {
+            return true;
+        }
+        i += 1;
+    }
+    false
+}
+
+// What was seen in a block that is about to be released.
+struct Seen {
+    watched: Option<Rec>, // bytes of a watched block (entry is removed from the table)
+    scanned: bool,
+    hit: bool,
+}
+
+// Called with the block still intact.  Does not touch the counters/records yet: for realloc
+// we only know afterwards whether the block really was released.
+unsafe fn inspect(ptr: *mut u8, size: usize) -> Seen {
+    with_state(|st| {
+        let mut seen = Seen { watched: None, scanned: false, hit: false };
+        let addr = ptr as usize;
+        for w in st.watch.iter_mut() {
+            if w.0 == addr && addr != 0 {
+                let n = w.1.min(REC_BYTES).min(size);
+                let mut rec = Rec { len: n, bytes: [0; REC_BYTES] };
+                std::ptr::copy_nonoverlapping(ptr as *const u8, rec.bytes.as_mut_ptr(), n);
+                seen.watched = Some(rec);
+                break;
+            }
+        }
+        if st.scan_on && size >= 32 {
+            seen.scanned = true;
+            seen.hit = contains_pattern(std::slice::from_raw_parts(ptr as *const u8, size), &st.pattern);
+        }
+        seen
+    })
+}
+
+// The block at addr has been (or is being) released: commit what inspect() saw.
+fn commit(addr: usize, seen: Seen) {
+    with_state(|st| {
+        if let Some(rec) = seen.watched {
+            for w in st.watch.iter_mut() {
+                if w.0 == addr {
+                    *w = (0, 0);
+                    break;
+                }
+            }
+            if st.nrec < MAX_REC {
+                st.recs[st.nrec] = rec;
+                st.nrec += 1;
+            } else {
+                st.overflow += 1;
+            }
+        }
+        if st.scan_on {
+            st.frees += 1;
+            if seen.scanned {
+                st.blocks += 1;
+                if seen.hit {
+                    st.leaks += 1;
+                }
+            }
+        }
+    })
+}
+
+pub struct WatchAlloc;
+
+unsafe impl GlobalAlloc for WatchAlloc {
+    unsafe fn alloc(&self, layout: Layout) -> *mut u8 {
+        System.alloc(layout)
+    }
+    unsafe fn alloc_zeroed(&self, layout: Layout) -> *mut u8 {
+        System.alloc_zeroed(layout)
+    }
+    unsafe fn dealloc(&self, ptr: *mut u8, layout: Layout) {
+        let seen = inspect(ptr, layout.size());
+        commit(ptr as usize, seen);
+        System.dealloc(ptr, layout)
+    }
+    unsafe fn realloc(&self, ptr: *mut u8, layout: Layout, new_size: usize) -> *mut u8 {
+        let seen = inspect(ptr, layout.size());
+        let new = System.realloc(ptr, layout, new_size);
+        if !new.is_null() && new != ptr {
+            // the old block was released with whatever it held
+            commit(ptr as usize, seen);
+        }
+        new
+    }
+}
+
+#[global_allocator]
+static GLOBAL: WatchAlloc = WatchAlloc;
+
+fn watch_reset() {
+    with_state(|st| {
+        st.watch = [(0, 0); MAX_WATCH];
+        st.nrec = 0;
+        st.overflow = 0;
+    })
+}
+fn watch_add(addr: usize, size: usize) {
+    with_state(|st| {
+        for w in st.watch.iter_mut() {
+            if w.0 == 0 {
+                *w = (addr, size);
+                return;
+            }
+        }
+        st.overflow += 1;
+    })
+}
+fn rec_count() -> usize {
+    with_state(|st| st.nrec)
+}
+fn rec_get(i: usize) -> Rec {
+    with_state(|st| st.recs[i])
+}
+fn overflow() -> usize {
+    with_state(|st| st.overflow)
+}
+
+fn scan_start(pat: &[u8; 32]) {
+    with_state(|st| {
+        st.pattern = *pat;
+        st.leaks = 0;
+        st.blocks = 0;
+        st.frees = 0;
+        st.scan_on = true;
+    })
+}
+// returns (leaks, blocks scanned, frees seen) and wipes the pattern
+fn scan_stop() -> (usize, usize, usize) {
+    with_state(|st| {
+        st.scan_on = false;
+        st.pattern = [0; 32];
+        (st.leaks, st.blocks, st.frees)
+    })
+}
+
+fn unhex(s: &str) -> Vec<u8> {
+    if s == "-" {
+        return Vec::new();
+    }
+    let b = s.as_bytes();
+    assert!(b.len() % 2 == 0, "odd hex");
+    let v = |c: u8| match c {
+        b'0'..=b'9' => c - b'0',
+        b'a'..=b'f' => c - b'a' + 10,
+        b'A'..=b'F' => c - b'A' + 10,
+        _ => panic!("bad hex"),
+    };
+    (0..b.len() / 2).map(|i| v(b[2 * i]) * 16 + v(b[2 * i + 1])).collect()
+}
+fn hex(b: &[u8]) -> String {
+    if b.is_empty() {
+        return "-".to_string();
+    }
+    let mut s = String::with_capacity(b.len() * 2);
+    for x in b {
+        s.push_str(&format!("{:02x}", x));
+    }
+    s
+}
+
+enum Cont {
+    P(PrivateKey),
+    K(Box<PayloadKey>),
+    V(Vec<u8>), // control: a plain vector, nothing wipes it
+}
+impl Cont {
+    fn block(&self) -> usize {
+        match self {
+            Cont::P(p) => p.as_bytes().as_ptr() as usize,
+            Cont::K(k) => k.as_bytes().as_ptr() as usize,
+            Cont::V(v) => v.as_ptr() as usize,
+        }
+    }
+    fn dup(&self) -> Cont {
+        match self {
+            Cont::P(p) => Cont::P(p.clone()),
+            Cont::K(k) => Cont::K(k.clone()),
+            Cont::V(v) => Cont::V(v.clone()),
+        }
+    }
+}
+
+fn recs_range(from: usize, to: usize) -> String {
+    if to <= from {
+        return "-".to_string();
+    }
+    let mut parts: Vec<String> = Vec::new();
+    for i in from..to {
+        let r = rec_get(i);
+        parts.push(hex(&r.bytes[..r.len]));
+    }
+    parts.join(",")
+}
+
+// z_hist <script>
+fn z_hist(script: &str) -> String {
+    enum Tok {
+        NewP(Vec<u8>),
+        Gen,
+        NewK(Vec<u8>),
+        NewV(Vec<u8>),
+        Clone(usize),
+        Drop(usize),
+    }
+    // parse first, so that the observed part does nothing but the container operations
+    let mut toks: Vec<Tok> = Vec::new();
+    if script != "-" {
+        for t in script.split(',') {
+            let tok = if let Some(h) = t.strip_prefix("np:") {
+                Tok::NewP(unhex(h))
+            } else if t == "ng" {
+                Tok::Gen
+            } else if let Some(h) = t.strip_prefix("nk:") {
+                Tok::NewK(unhex(h))
+            } else if let Some(h) = t.strip_prefix("nv:") {
+                Tok::NewV(unhex(h))
+            } else if let Some(i) = t.strip_prefix('c') {
+                Tok::Clone(i.parse().expect("bad index"))
+            } else if let Some(i) = t.strip_prefix('d') {
+                Tok::Drop(i.parse().expect("bad index"))
+            } else {
+                panic!("bad z_hist token")
+            };
+            toks.push(tok);
+        }
+    }
+    let ngen = toks.iter().filter(|t| matches!(t, Tok::Gen)).count();
+    if let Some(msg) = crate::rand_short(32 * ngen) {
+        return msg;
+    }
+    watch_reset();
+    let mut live: Vec<Cont> = Vec::with_capacity(toks.len());
+    for tok in &toks {
+        match tok {
+            Tok::NewP(b) => {
+                let c = Cont::P(PrivateKey::try_from(b.as_slice()).expect("np: needs 32 bytes"));
+                watch_add(c.block(), 32);
+                live.push(c);
+            }
+            Tok::Gen => {
+                let c = Cont::P(PrivateKey::generate());
+                watch_add(c.block(), 32);
+                live.push(c);
+            }
+            Tok::NewK(b) => {
+                let c = Cont::K(Box::new(PayloadKey::new(b)));
+                watch_add(c.block(), 32);
+                live.push(c);
+            }
+            Tok::NewV(b) => {
+                assert!(b.len() == 32, "nv: needs 32 bytes");
+                let c = Cont::V(b.clone());
+                watch_add(c.block(), 32);
+                live.push(c);
+            }
+            Tok::Clone(i) => {
+                let c = live[*i].dup();
+                watch_add(c.block(), 32);
+                live.push(c);
+            }
+            Tok::Drop(i) => {
+                let c = live.remove(*i);
+                drop(c);
+            }
+        }
+    }
+    let nlive = live.len();
+    let mid = rec_count();
+    // containers still live are released too, in list order
+    for c in live.drain(..) {
+        drop(c);
+    }
+    let first = recs_range(0, mid);
+    let ovf = overflow();
+    let mut s = format!("outcome=ok freed={}", first);
+    if nlive > 0 {
+        s.push('|');
+        s.push_str(&recs_range(mid, rec_count()));
+    }
+    s.push_str(&format!(" live={}", nlive));
+    if ovf > 0 {
+        s.push_str(&format!(" overflow={}", ovf));
+    }
+    watch_reset();
+    s
+}
+
+// fixed peer key pair used by z_api (RFC 7748 section 6.1, Bob)
+const PEER_SK: [u8; 32] = [
+    0x5d, 0xab, 0x08, 0x7e, 0x62, 0x4a, 0x8a, 0x4b, 0x79, 0xe1, 0x7f, 0x8b, 0x83, 0x80, 0x0e, 0xe6,
+    0x6f, 0x3b, 0xb1, 0x29, 0x26, 0x18, 0xb6, 0xfd, 0x1c, 0x2f, 0x8b, 0x27, 0xff, 0x88, 0xe0, 0xeb,
+];
+const FIXED_EPH: [u8; 32] = [0x11; 32];
+const FIXED_PAYLOAD: [u8; 32] = [0x22; 32];
+
+// z_api <which> <sk hex32> [<pattern hex32>]
+//   which = noise_enc | key_enc | key_dec | control | control0
+// The given private key is the sender (noise_enc, key_enc) or the recipient (key_dec).  While
+// the API call runs, every released block of >= 32 bytes is searched for the pattern (default:
+// the private key itself).  Ephemeral key and payload key are fixed (0x11.., 0x22..), the peer
+// is a fixed key pair, so nothing is drawn from the random source.
+fn z_api(a: &[&str]) -> String {
+    let which = a[1];
+    let mut skb = unhex(a[2]);
+    let mut pat = [0u8; 32];
+    if a.len() > 3 {
+        let mut p = unhex(a[3]);
+        pat.copy_from_slice(&p);
+        p.iter_mut().for_each(|b| *b = 0);
+    } else {
+        pat.copy_from_slice(&skb);
+    }
+    let sk = PrivateKey::try_from(skb.as_slice()).expect("z_api: key must be 32 bytes");
+    skb.iter_mut().for_each(|b| *b = 0); // the harness' own copy must not be found later
+    drop(skb);
+    let pk: PublicKey = sk.to_public().expect("to_public");
+    let peer_sk = PrivateKey::try_from(&PEER_SK[..]).unwrap();
+    let peer_pk = peer_sk.to_public().unwrap();
+    let eph = PrivateKey::try_from(&FIXED_EPH[..]).unwrap();
+    let eph_pk = eph.to_public().unwrap();
+    let payload = PayloadKey::new(&FIXED_PAYLOAD);
+    let plaintext = b"zeroize observation plaintext".to_vec();
+
+    let (status, counts) = match which {
+        "noise_enc" => {
+            scan_start(&pat);
+            let r = kc::noise_encrypt(&sk, &pk, &peer_pk, Some(&eph), Some(&eph_pk), b"prologue", &payload);
+            let c = scan_stop();
+            (if r.is_ok() { "ok" } else { "err" }, c)
+        }
+        "key_enc" => {
+            let mut rd = Cursor::new(plaintext.clone());
+            let mut out: Vec<u8> = Vec::with_capacity(4096);
+            scan_start(&pat);
+            let r = kc::encrypt::key_encrypt(
+                &mut rd, &mut out, &sk, &pk, &peer_pk, Some(&eph), Some(&eph_pk), Some(&payload), AsymFileFormat::V1,
+            );
+            let c = scan_stop();
+            (if r.is_ok() { "ok" } else { "err" }, c)
+        }
+        "key_dec" => {
+            // ciphertext from the fixed peer to the given key, produced with observation off
+            let mut rd = Cursor::new(plaintext.clone());
+            let mut ct: Vec<u8> = Vec::new();
+            kc::encrypt::key_encrypt(
+                &mut rd, &mut ct, &peer_sk, &peer_pk, &pk, Some(&eph), Some(&eph_pk), Some(&payload), AsymFileFormat::V1,
+            )
+            .expect("z_api: preparing ciphertext failed");
+            let mut rd = Cursor::new(ct);
+            let mut out: Vec<u8> = Vec::with_capacity(4096);
+            scan_start(&pat);
+            let r = kc::decrypt::key_decrypt(&mut rd, &mut out, &sk, &pk, AsymFileFormat::V1);
+            let c = scan_stop();
+            let ok = r.is_ok() && out == plaintext;
+            (if ok { "ok" } else { "err" }, c)
+        }
+        // positive control: the harness itself releases one un-wiped copy -> leaks=1
+        "control" => {
+            let copy: Vec<u8> = pat.to_vec();
+            scan_start(&pat);
+            drop(copy);
+            let c = scan_stop();
+            ("ok", c)
+        }
+        // negative control: a copy that is wiped before release -> leaks=0
+        "control0" => {
+            let mut copy: Vec<u8> = pat.to_vec();
+            scan_start(&pat);
+            for b in copy.iter_mut() {
+                unsafe { std::ptr::write_volatile(b, 0) };
+            }
+            drop(copy);
+            let c = scan_stop();
+            ("ok", c)
+        }
+        _ => return "outcome=badop".into(),
+    };
+    pat = [0; 32];
+    let _ = pat;
+    format!("outcome={} leaks={} blocks={} frees={}", status, counts.0, counts.1, counts.2)
+}
+
+pub fn run(a: &[&str]) -> String {
+    // a panicking case may leave scan mode on: always start clean
+    let _ = scan_stop();
+    match a[0] {
+        "z_hist" => z_hist(a[1]),
+        "z_api" => z_api(a),
+        _ => "outcome=badop".into(),
+    }
 }
